@@ -5,7 +5,8 @@ import ast
 
 from ..core import Run, AnalysisError, dotted, norm
 from ..alg import T, num, var, op, fun, normalize, Rat, C, same
-from ..reader import ExprReader, system_branches, SYSTEMS
+from ..reader import SYSTEMS
+from ..pyreader import PyReader, VVal, Sys, Raised
 from ..dim import World
 from ..flow import Fn
 
@@ -35,29 +36,56 @@ H = {
 }
 
 
-def _special(coords: tuple, inputs: dict):
-    def special(rd: ExprReader, n: ast.AST):
-        if isinstance(n, ast.Subscript) and isinstance(n.value, ast.Call) and isinstance(n.value.func, ast.Attribute) \
-                and n.value.func.attr == "base_scalars" and isinstance(n.slice, ast.Constant) and isinstance(n.slice.value, int):
-            if 0 <= n.slice.value < 3:
-                return var(coords[n.slice.value])
-            rd.fail(n, "coordinate index")
-        if isinstance(n, ast.Call) and dotted(n.func) == "Vector" and n.args:
-            return rd.ev(n.args[0])
-        if isinstance(n, ast.Call) and (dotted(n.func) or "").endswith("VectorField.from_vector") and n.args:
-            return rd.ev(n.args[0])
-        return None
-    return special
+class FieldObj:
+    """opaque ScalarField / VectorField: `apply_to_basis()` yields the given value (a term, or a component list of any length)"""
+
+    def __init__(self, system, value):
+        self.system, self.value = system, value
 
 
-def apply_operator(fn: ast.FunctionDef, system: str, inputs: dict):
-    body = system_branches(fn, "coord_system_type").get(system)
-    if body is None:
-        raise AnalysisError(f"C12: {fn.name} has no branch for {system}")
-    rd = ExprReader(dict(inputs), _special(SYSTEMS[system], inputs), where=f"{fn.name}/{system}")
-    res = rd.run(body)
-    if res is None:
-        raise AnalysisError(f"C12: {fn.name}/{system} returns nothing readable")
+class OperatorReader(PyReader):
+
+    def hook_call(self, n, env, fns):
+        f = dotted(n.func) or ""
+        if isinstance(n.func, ast.Attribute):
+            if n.func.attr == "apply_to_basis" and not n.args:
+                fld = self.ev(n.func.value, env, fns)
+                if isinstance(fld, FieldObj):
+                    if isinstance(fld.value, list):
+                        return VVal(list(fld.value), fld.system)
+                    return fld.value
+            if n.func.attr == "base_scalars" and not n.args:
+                cs = self.ev(n.func.value, env, fns)
+                if isinstance(cs, Sys):
+                    return [var(x) for x in SYSTEMS[cs.kind]]
+        if f.endswith("VectorField.from_vector") and len(n.args) == 1:
+            return self.ev(n.args[0], env, fns)
+        return NotImplemented
+
+    def ev(self, n, env, fns):
+        if isinstance(n, ast.Attribute):
+            base = None
+            if isinstance(n.value, (ast.Name, ast.Attribute)):
+                try:
+                    base = self.ev(n.value, env, fns)
+                except AnalysisError:
+                    base = None
+            if isinstance(base, FieldObj) and n.attr == "coordinate_system":
+                return base.system
+            if isinstance(base, Sys) and n.attr == "coord_system":
+                return base
+        return super().ev(n, env, fns)
+
+
+def apply_operator(mod_tree: ast.Module, fname: str, system: str, value):
+    """Abstract evaluation of one operator of operators.py on a field whose basis value is `value`."""
+    R = OperatorReader(mod_tree, where=f"{fname}/{system}")
+    try:
+        res = R.call(fname, [FieldObj(Sys("cs" + system, system), value)])
+    except Raised as r:
+        return r
+    if isinstance(res, VVal):
+        return list(res.components)
     return res
 
 
@@ -100,46 +128,76 @@ def check(run: Run) -> None:
     for name in ("gradient_operator", "divergence_operator", "curl_operator"):
         run.require(name in fns, f"{name} not found")
     grad, div, curl = fns["gradient_operator"], fns["divergence_operator"], fns["curl_operator"]
+    tree = mod.tree
+
+    def pad(v: list) -> list:
+        return list(v) + [num(0)] * (3 - len(v))
+
     for system, coords in SYSTEMS.items():
-        f = fun("f", coords)
-        F = [fun(f"F{k}", coords) for k in range(3)]
-        # O1
-        g = apply_operator(grad, system, {"field_space": f})
-        if not (isinstance(g, list) and len(g) == 3):
-            raise AnalysisError(f"C12: gradient/{system} is not a 3-component vector")
-        for i, (a, b) in enumerate(zip(g, ref_grad(f, system))):
-            run.ob("O1", f"grad/{system}[{i}]")
-            if not same(normalize(a), normalize(b)):
-                run.violate("O1", f"{MOD}:gradient_operator:{system}[{i}]", mod, grad,
-                            f"component {i} ({coords[i]}) of the {system.lower()} gradient is {normalize(a)!r}; the reference d f/d{coords[i]} / h_{i} is {normalize(b)!r}")
-        # O2
-        d = apply_operator(div, system, {"field_components": F})
-        run.ob("O2", f"div/{system}")
-        if not isinstance(d, T):
-            raise AnalysisError(f"C12: divergence/{system} is not a scalar")
-        if not same(normalize(d), normalize(ref_div(F, system))):
-            run.violate("O2", f"{MOD}:divergence_operator:{system}", mod, div,
-                        f"the {system.lower()} divergence differs from the reference: got {normalize(d)!r}, reference {normalize(ref_div(F, system))!r}")
-        # O3
-        c = apply_operator(curl, system, {"field_components": F})
-        if not (isinstance(c, list) and len(c) == 3):
-            raise AnalysisError(f"C12: curl/{system} is not a 3-component vector")
-        for i, (a, b) in enumerate(zip(c, ref_curl(F, system))):
-            run.ob("O3", f"curl/{system}[{i}]")
-            if not same(normalize(a), normalize(b)):
-                run.violate("O3", f"{MOD}:curl_operator:{system}[{i}]", mod, curl,
-                            f"component {i} ({coords[i]}) of the {system.lower()} curl is {normalize(a)!r}; the reference is {normalize(b)!r}")
-        # O4: compose the repository's own formulas
-        cg = apply_operator(curl, system, {"field_components": g})
-        for i, a in enumerate(cg):
-            run.ob("O4", f"curl(grad)/{system}[{i}]")
-            if not same(normalize(a), C(0)):
-                run.violate("O4", f"{MOD}:curl(grad):{system}[{i}]", mod, curl, f"curl(grad f) has non-zero component {i} in {system.lower()} coordinates: {normalize(a)!r}")
-        dc = apply_operator(div, system, {"field_components": c})
-        run.ob("O4", f"div(curl)/{system}")
-        if not same(normalize(dc), C(0)):
-            run.violate("O4", f"{MOD}:div(curl):{system}", mod, div, f"div(curl F) is not zero in {system.lower()} coordinates: {normalize(dc)!r}")
-        run.sample({"system": system, "gradient": [repr(normalize(x)) for x in g], "divergence": repr(normalize(d))})
+        # two families of fields: generic undefined functions of the three coordinates, and generic constants (code that special-cases
+        # syntactically constant components must still agree with the reference, e.g. div of a constant radial field is not 0)
+        families = {
+            "generic": (fun("f", coords), [fun(f"F{k}", coords) for k in range(3)]),
+            "constant": (var("c"), [var(f"c{k}") for k in range(3)]),
+        }
+        for fam, (f, Fall) in families.items():
+            # O1
+            g = apply_operator(tree, "gradient_operator", system, f)
+            if isinstance(g, Raised) or not (isinstance(g, list) and len(g) <= 3):
+                run.violate("O1", f"{MOD}:gradient_operator:{system}:{fam}:result", mod, grad, f"gradient of a {fam} scalar field in {system.lower()} coordinates {'raises ' + g.exc if isinstance(g, Raised) else 'is not a vector'}")
+                continue
+            g = pad(g)
+            for i, (a, b) in enumerate(zip(g, ref_grad(f, system))):
+                run.ob("O1", f"grad/{system}/{fam}[{i}]")
+                if not same(normalize(a), normalize(b)):
+                    run.violate("O1", f"{MOD}:gradient_operator:{system}[{i}]", mod, grad,
+                                f"component {i} ({coords[i]}) of the {system.lower()} gradient of a {fam} field is {normalize(a)!r}; the reference d f/d{coords[i]} / h_{i} is {normalize(b)!r}")
+            for ncomp in range(4):
+                F = Fall[:ncomp]
+                Fp = pad(F)
+                # O2
+                d = apply_operator(tree, "divergence_operator", system, F)
+                run.ob("O2", f"div/{system}/{fam}/{ncomp}")
+                if isinstance(d, Raised) or isinstance(d, list):
+                    run.violate("O2", f"{MOD}:divergence_operator:{system}:{ncomp}:result", mod, div, f"divergence of a {ncomp}-component {fam} field in {system.lower()} coordinates {'raises ' + d.exc if isinstance(d, Raised) else 'is not a scalar'}")
+                elif not same(normalize(d), normalize(ref_div(Fp, system))):
+                    run.violate("O2", f"{MOD}:divergence_operator:{system}", mod, div,
+                                f"the {system.lower()} divergence of a {ncomp}-component {fam} field differs from the reference of the zero-padded field: "
+                                f"got {normalize(d)!r}, reference {normalize(ref_div(Fp, system))!r}")
+                # O3
+                c = apply_operator(tree, "curl_operator", system, F)
+                if isinstance(c, Raised) or not isinstance(c, list):
+                    run.ob("O3", f"curl/{system}/{fam}/{ncomp}")
+                    run.violate("O3", f"{MOD}:curl_operator:{system}:{ncomp}:result", mod, curl, f"curl of a {ncomp}-component {fam} field in {system.lower()} coordinates {'raises ' + c.exc if isinstance(c, Raised) else 'is not a vector'}")
+                    continue
+                c = pad(c)
+                for i, (a, b) in enumerate(zip(c, ref_curl(Fp, system))):
+                    run.ob("O3", f"curl/{system}/{fam}/{ncomp}[{i}]")
+                    if not same(normalize(a), normalize(b)):
+                        run.violate("O3", f"{MOD}:curl_operator:{system}[{i}]", mod, curl,
+                                    f"component {i} ({coords[i]}) of the {system.lower()} curl of a {ncomp}-component {fam} field is {normalize(a)!r}; "
+                                    f"the reference for the zero-padded field is {normalize(b)!r}")
+                # O4: div(curl F) = 0 with the repository's own formulas composed
+                dc = apply_operator(tree, "divergence_operator", system, c)
+                run.ob("O4", f"div(curl)/{system}/{fam}/{ncomp}")
+                if isinstance(dc, Raised) or isinstance(dc, list) or not same(normalize(dc), C(0)):
+                    run.violate("O4", f"{MOD}:div(curl):{system}", mod, div, f"div(curl F) is not zero for a {ncomp}-component {fam} field in {system.lower()} coordinates: "
+                                f"{dc.exc if isinstance(dc, Raised) else (normalize(dc) if not isinstance(dc, list) else dc)!r}")
+            cg = apply_operator(tree, "curl_operator", system, g)
+            if isinstance(cg, Raised) or not isinstance(cg, list):
+                run.violate("O4", f"{MOD}:curl(grad):{system}:result", mod, curl, "curl(grad f) cannot be formed")
+            else:
+                for i, a in enumerate(pad(cg)):
+                    run.ob("O4", f"curl(grad)/{system}/{fam}[{i}]")
+                    if not same(normalize(a), C(0)):
+                        run.violate("O4", f"{MOD}:curl(grad):{system}[{i}]", mod, curl, f"curl(grad f) has non-zero component {i} in {system.lower()} coordinates for a {fam} field: {normalize(a)!r}")
+            if fam == "generic":
+                run.sample({"system": system, "gradient": [repr(normalize(x)) for x in g], "divergence(3 components)": repr(normalize(apply_operator(tree, "divergence_operator", system, Fall)))})
+    # curl of more than three components is refused
+    run.ob("O3", "curl/4-components-refused")
+    r4 = apply_operator(tree, "curl_operator", "CARTESIAN", [var(f"c{k}") for k in range(4)])
+    if not isinstance(r4, Raised):
+        run.violate("O3", f"{MOD}:curl_operator:4-components", mod, curl, "curl of a 4-component field is answered instead of refused")
     # O5 padding
     w = World(run.src)
     for name in ("divergence_operator", "curl_operator"):
